@@ -23,7 +23,7 @@ MIN_HELD = {'quick': 200, 'thorough': 1000}
 def cells(tier, seed):
     rnd = core.rng_for(seed, PROP, tier)
     out = []
-    reps = 2 if tier == 'quick' else 40
+    reps = 2 if tier == 'quick' else 300
     for w in refs.all_wavelets():
         for _ in range(reps):
             J = rnd.choice([1, 2, 2, 3])
